@@ -87,6 +87,9 @@ Fixpoint rs_do_reads (blocks : list rs_block) (reads : list N) (it : rs_iter) : 
   end.
 
 Section Machine.
+  (* true: the code as it is now (fix 8a2210d: a fresh scan discards what an abandoned one left behind, and
+     yr_scanner_destroy frees a leftover notebook); false: the pinned code, which did neither *)
+  Variable discard : bool.
   Variable M : Type.                               (* context->matches (+ required_eval, which matches set) *)
   Variable m_empty : M.                            (* after _yr_scanner_clean_matches *)
   Variable m_scan : M -> rs_block -> list N -> M.  (* _yr_scanner_scan_mem_block on fetched data *)
@@ -116,6 +119,16 @@ Section Machine.
                 end
     end.
 
+  (* what the fresh path starts from (scanner.c, "if (scanner->matches_notebook != NULL)" in the else branch):
+     a notebook that is still alive means the previous scan returned ERROR_BLOCK_NOT_READY and was not resumed;
+     its matches are cleaned and its notebook destroyed.  The pinned code kept the matches (it relied on every
+     earlier call having cleaned up at _exit) and overwrote - leaked - the notebook. *)
+  Definition rs_fresh_matches (st : rs_state) : M :=
+    if rs_notebook st then (if discard then m_empty else rs_matches st) else rs_matches st.
+  (* notebooks lost: by the fresh path overwriting scanner->matches_notebook, by yr_scanner_destroy *)
+  Definition rs_fresh_leaks (st : rs_state) : bool := if rs_notebook st then negb discard else false.
+  Definition rs_destroy_leaks (st : rs_state) : bool := if rs_notebook st then negb discard else false.
+
   (* ONE call of yr_scanner_scan_mem_blocks.  [fsz] = iterator->file_size (None: no such function). *)
   Definition rs_scan_call (blocks : list rs_block) (fsz : option N) (st : rs_state) (it : rs_iter)
     : rs_result * rs_state * rs_iter :=
@@ -123,21 +136,21 @@ Section Machine.
       if ri_err it
       then (* continuation: state kept, block = iterator->next() *)
            rs_iterate blocks (length blocks) (rs_matches st) it
-      else (* fresh: notebook created; NOTE the matches are not cleared here - the code relies on every
-              earlier call having cleaned up at _exit; block = iterator->first() *)
+      else (* fresh: leftovers of an abandoned scan discarded (see rs_fresh_matches), notebook created;
+              block = iterator->first() *)
            let '(b, it1) := rs_it_call blocks true it in
            match b with
-           | None => Some (rs_matches st, it1)
-           | Some b0 => rs_iterate blocks (length blocks) (rs_scan_block (rs_matches st) b0) it1
+           | None => Some (rs_fresh_matches st, it1)
+           | Some b0 => rs_iterate blocks (length blocks) (rs_scan_block (rs_fresh_matches st) b0) it1
            end in
     match phase1 with
-    | None => (RsFuel, st, it)
+    | None => (RsFuel, rs_init, it)            (* out of fuel: excluded by the theorems *)
     | Some (m, it2) =>
         if ri_err it2
         then (* result = iterator->last_error = ERROR_BLOCK_NOT_READY: matches and notebook are kept *)
              (RsNotReady, mk_rs_state m true, it2)
         else match rs_do_reads blocks reads it2 with
-             | None => (RsFuel, st, it2)
+             | None => (RsFuel, rs_init, it2)
              | Some (vals, it3) =>
                  (* _exit: _yr_scanner_clean_matches, notebook destroyed *)
                  (RsDone (finish m fsz vals), rs_init, it3)
@@ -265,13 +278,13 @@ Definition rc_finish (rules : list rc_rule) (imports : list nat) (f : Z) (sc : r
   (rp_scan imports rr f sc, m).
 
 (* the interrupted run, every call listed: (rc-or-result, calls made in that call) *)
-Definition rc_run (pats : list (list N)) (rules : list rc_rule) (imports : list nat) (f : Z) (sc : rp_script)
+Definition rc_run (discard : bool) (pats : list (list N)) (rules : list rc_rule) (imports : list nat) (f : Z) (sc : rp_script)
                   (blocks : list rs_block) (fsz : option N) (pat : list bool) :=
-  rs_run (list (list N)) (map (fun _ => []) pats) (rc_scan pats) _ (rc_reads rules)
+  rs_run discard (list (list N)) (map (fun _ => []) pats) (rc_scan pats) _ (rc_reads rules)
          (rc_finish rules imports f sc) blocks fsz pat.
 
 (* one call, from a given state and iterator (the check drives the calls itself to compare call by call) *)
-Definition rc_call (pats : list (list N)) (rules : list rc_rule) (imports : list nat) (f : Z) (sc : rp_script)
+Definition rc_call (discard : bool) (pats : list (list N)) (rules : list rc_rule) (imports : list nat) (f : Z) (sc : rp_script)
                    (blocks : list rs_block) (fsz : option N) st it :=
-  rs_scan_call (list (list N)) (map (fun _ => []) pats) (rc_scan pats) _ (rc_reads rules)
+  rs_scan_call discard (list (list N)) (map (fun _ => []) pats) (rc_scan pats) _ (rc_reads rules)
                (rc_finish rules imports f sc) blocks fsz st it.
